@@ -46,12 +46,15 @@ UNITS = {
     "timers": {
         "file": "des/src/time/interval.rs",
         "props": ["C05"],
-        "functions": ["MissedTickBehavior::next_timeout (Burst, Delay)"],
+        "functions": ["MissedTickBehavior::next_timeout (Burst, Delay)", "impl Add<Duration> for SimTime", "impl Sub<Duration> for SimTime", "impl Sub<SimTime> for SimTime"],
         "harnesses": {
+            "simtime_plus_duration_follows_nanoseconds": "SimTime + Duration computes on the nanosecond counts (contract assumed by unit interval), all values up to 500 years",
+            "simtime_minus_duration_follows_nanoseconds": "SimTime - Duration computes on the nanosecond counts (contract assumed by unit interval)",
+            "simtime_minus_simtime_follows_nanoseconds": "SimTime - SimTime yields the Duration between them (contract assumed by unit interval)",
             "next_timeout_burst_and_delay": "after a missed tick Burst schedules the next tick one period after the tick that was due, Delay one period after now, for every (due, now >= due, period) up to 500 years",
         },
         "trusted": ["interval.rs is included textually (include!) so that the private next_timeout is callable; des/src/time/mod.rs verbatim as its parent module",
-                    "Skip (now + period - (now - due) % period) is NOT proved: 128-bit remainders exceed CBMC's budget here (no verdict in 25 min with cadical, 40 min with kissat); it is covered by the bounded replay only",
+                    "Skip (now + period - (now - due) % period): 128-bit remainders exceed CBMC's budget here (no verdict in 25 min with cadical, 40 min with kissat); it is proved in the Verus unit `interval` instead, on top of the operator contracts this unit establishes",
                     "serde / pin-project-lite linked, not reached"],
     },
     "simtime": {
